@@ -542,8 +542,8 @@ def update_flag_sub(x, y, z):
 def set_float_cs_eip(info):
     e = []
     # XXX TODO check float updt
-    cast_int = tab_mode[info.opmode]
-    e.append(ExprAff(float_eip, ExprInt(cast_int(info.offset))))
+    # (the instruction address is 32 bits wide whatever the operand size)
+    e.append(ExprAff(float_eip, ExprInt32(info.offset)))
     e.append(ExprAff(float_cs, cs))
     return e
 
@@ -1669,7 +1669,7 @@ def float_pop(avoid_flt = None, src = None):
     if avoid_flt != float_st6:
         e.append(ExprAff(float_st6, float_st7))
     if avoid_flt != float_st7:
-        if src is None: src = ExprInt32(0)
+        if src is None: src = ExprInt64(0)
         e.append(ExprAff(float_st7, src))
     e.append(ExprAff(float_stack_ptr, ExprOp('-', float_stack_ptr, ExprInt32(1))))
     return e
